@@ -68,6 +68,7 @@ Clauses(e) ==
            /\ e.after.verify.err = "" /\ ~e.after.verify.needed /\ e.after.verify.unusable = 0
            /\ e.after.repair.err = "" /\ e.after.repair.repaired = << >> /\ e.after.repair.writes = << >>
            /\ e.after.repair.outside = << >> >>,
+     << "C14.success_converges_to_original", (IsRepair(e) /\ e.res.err = "") => e.restored >>,
      << "C14.failure_keeps_or_restores", (IsRepair(e) /\ e.res.err # "") => e.kept_or_restored >>,
      << "C14.verify_pure", IsVerify(e) => (e.writes = << >> /\ e.outside = << >>) >>,
      << "C16.survivors_counted", (IsVerify(e) /\ e.res.err = "") => e.nsurv <= e.res.usable >>,
